@@ -3,6 +3,14 @@ from ._intrinsic import _intrinsic
 from ._primitive_type import _PrimitiveType
 
 
+@_intrinsic
+def _int_truncdiv(lhs: int, rhs: int) -> int:
+    # exact integer quotient truncated toward zero,
+    # int(lhs / rhs) loses precision for operands beyond 2**53
+    quotient = abs(lhs) // abs(rhs)
+    return quotient if (lhs >= 0) == (rhs >= 0) else -quotient
+
+
 class Integer(_PrimitiveType):
     @staticmethod
     def decay(value: int | Integer) -> int:
@@ -186,7 +194,7 @@ class Integer(_PrimitiveType):
 
             if rhs == 0:
                 return Integer()
-            return Integer(int(lhs / rhs))
+            return Integer(_int_truncdiv(lhs, rhs))
         else:
             return NotImplemented
 
@@ -213,7 +221,7 @@ class Integer(_PrimitiveType):
             if rhs == 0:
                 return Integer()
 
-            return Integer(lhs - rhs * int(lhs / rhs))
+            return Integer(lhs - rhs * _int_truncdiv(lhs, rhs))
         else:
             return NotImplemented
 
